@@ -25,6 +25,7 @@ type c13Case struct {
 	ShimPath string      `json:"shim_path,omitempty"`
 	Status   int         `json:"status,omitempty"`
 	Seed     int64       `json:"seed,omitempty"`
+	Redirect string      `json:"redirect,omitempty"`
 	Info     bool        `json:"info,omitempty"`
 }
 
@@ -36,6 +37,7 @@ type c13Result struct {
 	Want       []string `json:"want"`
 	ParseErr   bool     `json:"parse_err"`
 	Connected  bool     `json:"connected"`
+	Redirects  int      `json:"redirects"`
 	Reached    bool     `json:"reached"`
 	Violations []string `json:"violations"`
 	Note       string   `json:"note"`
@@ -171,7 +173,7 @@ func c13NonShim(rng *rand.Rand, n int, seed int64) []c13Case {
 // C13 — the websocket shim only ever connects to the configured backend.
 func C13(r *core.Run) {
 	r.Level = "exploration"
-	r.SetRule("websockets.Proxy driven in-process (race-built worker, agent's GODEBUG defaults, real gorilla backend, one case at a time per process); observation: every (network,address) handed to websocket.DefaultDialer.NetDialContext, plus request URI and Host the backend's websocket server received. Open bodies: an enumerated corpus of URL syntax classes (absolute ws/wss/http/other, scheme-relative, path-only, opaque, empty, userinfo, IP literals, ports, percent-encoded hosts, back-slashes, odd slashes, fragments, CR/LF, very long, unicode hosts, whitespace, query tricks), seeded mutations (splice, insert special, delete, duplicate) and random byte / ASCII strings, each with rewriteWebsocketHost on and off. Pass-through: requests for ordinary paths and near misses of the shim prefix (two shim paths), random methods/headers/bodies/scripted responses; class = URL syntax class | near-miss class")
+	r.SetRule("websockets.Proxy driven in-process (race-built worker, agent's GODEBUG defaults, real gorilla backend, one case at a time per process); observation: every (network,address) handed to websocket.DefaultDialer.NetDialContext, plus request URI and Host the backend's websocket server received. Open bodies: an enumerated corpus of URL syntax classes (absolute ws/wss/http/other, scheme-relative, path-only, opaque, empty, userinfo, IP literals, ports, percent-encoded hosts, back-slashes, odd slashes, fragments, CR/LF, very long, unicode hosts, whitespace, query tricks), seeded mutations (splice, insert special, delete, duplicate) and random byte / ASCII strings, each with rewriteWebsocketHost on and off; plus a backend that answers the handshake with a redirect: statuses {301,302,307,308} x Location {absolute foreign ws, absolute foreign http, scheme-relative foreign, path-only, absolute to the backend, request path plus a trailing slash} x 8 URL shapes incl. paths beginning with //host. Pass-through: requests for ordinary paths and near misses of the shim prefix (two shim paths), random methods/headers/bodies/scripted responses; class = URL syntax class | near-miss class")
 	r.Assume("expected request URI = net/url's escaped path (\"/\" prefixed when missing) + \"?\" + raw query of the supplied URL; how a percent-encoded spelling of the prefix (/shim%2Fopen, /%73him/open) is routed is left to ServeMux and only recorded; paths ServeMux redirects by itself are not generated; the syscall-level (strace) sample of DESIGN.md is not run: the dial hook sees every address before the socket is created")
 	bin := r.MustBuild(r.BuildWorker())
 	godebug := "GODEBUG=" + shimGodebug(r)
@@ -205,6 +207,22 @@ func C13(r *core.Run) {
 			Rewrite: i%2 == 1, Host: []string{"client.example", "evil-host.example:8080"}[(i/2)%2]}
 		cases = append(cases, c)
 		bodyOf[c.ID] = e.url
+	}
+	// a backend that answers the handshake with a redirect: every status x Location kind x URL shape
+	// (incl. paths that start with //host, which a trailing-slash redirect turns into a scheme-relative Location)
+	redirBodies := []string{"/redir/a", "ws://public.example.com/redir/x?y=1", "ws://public.example.com//evil.example:9/echo", "ws:////evil.example:9/echo",
+		"//public.example.com//evil.example:9/echo", "/redir//evil.example:9/x", "/a//b?c=d", "x:y//evil.example:9/opaque"}
+	nRedir := 0
+	for _, body := range redirBodies {
+		for _, status := range []int{301, 302, 307, 308} {
+			for _, kind := range []string{"absolute-foreign", "http-foreign", "scheme-relative", "path-only", "absolute-backend", "trailing-slash"} {
+				c := c13Case{ID: fmt.Sprintf("r%d-%d", r.Seed, nRedir), Kind: "url", Class: "redirect:" + kind, B64: base64.StdEncoding.EncodeToString([]byte(body)),
+					Rewrite: nRedir%2 == 1, Host: "client.example", Redirect: fmt.Sprintf("%d;%s", status, kind)}
+				cases = append(cases, c)
+				bodyOf[c.ID] = body
+				nRedir++
+			}
+		}
 	}
 	cases = append(cases, c13NonShim(rng, r.Pick(100, 3000), r.Seed)...)
 	if r.OnlyCase >= 0 && r.OnlyCase < len(cases) {
@@ -250,7 +268,15 @@ func C13(r *core.Run) {
 			if res.ParseErr {
 				parseErr++
 			}
-			r.Case(fmt.Sprintf("url:%s|rewrite=%v|%s", c.Class, c.Rewrite, outcome))
+			if c.Redirect != "" {
+				r.Case(fmt.Sprintf("url:%s|%s|%s|redirect-answers=%d|%s", c.Class, c.Redirect, core.Trunc(bodyOf[c.ID], 60), res.Redirects, outcome))
+				r.Add("handshakes_answered_with_a_redirect", res.Redirects)
+				if res.Connected {
+					r.Add("redirect_cases_that_ended_connected_to_the_backend", 1)
+				}
+			} else {
+				r.Case(fmt.Sprintf("url:%s|rewrite=%v|%s", c.Class, c.Rewrite, outcome))
+			}
 			statusMix[outcome]++
 			for _, d := range res.Dials {
 				dialAddrs[d]++
@@ -298,7 +324,7 @@ func C13(r *core.Run) {
 	r.Set("hook_hits", hits)
 	r.Set("strace_sample", "skipped")
 	r.JudgeRaces(core.ParseRaceLogs(filepath.Join(r.WorkDir, "race-")))
-	minCases := r.Pick(480, 32000)
+	minCases := r.Pick(480, 32000) + nRedir - 10
 	if r.OnlyCase >= 0 {
 		minCases = 1
 	}
